@@ -182,6 +182,11 @@ class Tr:
             return self.block(rest, defined, final)  # docstring
         if isinstance(s, ast.Pass):
             return self.block(rest, defined, final)
+        if (isinstance(s, ast.Expr) and isinstance(s.value, ast.Call) and isinstance(s.value.func, ast.Attribute)
+                and ast.unparse(s.value.func.value) == "logger"
+                and s.value.func.attr in ("debug", "info", "warning", "error")
+                and not any(isinstance(n, (ast.NamedExpr, ast.Call)) for a in s.value.args for n in ast.walk(a))):
+            return self.block(rest, defined, final)  # logging of plain values has no effect on the result
         if isinstance(s, ast.Return):
             return self.ret(self.e(s.value))
         if isinstance(s, ast.Raise):
